@@ -244,8 +244,9 @@ def synthetic(ctx, shard, nshards):
     sub = Sub("c12.synthetic")
     V = Viol(sub, "C12")
     rnd = random.Random(ctx.sub_seed("c12s", shard))
-    d = os.path.join(ctx.build.root, "tmp-c12-%d" % shard)
-    os.makedirs(d, exist_ok=True)
+    import tempfile
+    # (a directory of its own: two runs of this check may share the build)
+    d = tempfile.mkdtemp(prefix="tmp-c12-%d-" % shard, dir=ctx.build.root)
     try:
         for it in range(100 if not ctx.thorough else 600):
             # the table has its own generator, so that a replay can rebuild the file from tseed
